@@ -652,15 +652,33 @@ class Interp:
 
     def ex_BoolOp(self, node, frame):
         if self.spec:
+            # spec-mode and/or: operand i is evaluated under the assumption that the earlier operands did not decide
+            # (so `is_none(x) or x.f > 0` and `cls_is(e, 'A') and e.a_field` are well formed), without forking
             ts = []
             is_and = isinstance(node.op, ast.And)
-            for vnode in node.values:
-                t = z3.simplify(self.truth(self.eval(vnode, frame)))
-                if is_and and z3.is_false(t):
-                    return mk_bool(False)
-                if not is_and and z3.is_true(t):
-                    return mk_bool(True)
-                ts.append(t)
+            pushed = []
+            try:
+                for vnode in node.values:
+                    try:
+                        t = z3.simplify(self.truth(self.eval(vnode, frame)))
+                    except (OutOfSubset, StaleContract, SymRaise):
+                        # ill-formed only if this operand can be reached at all
+                        if pushed and not self.path._feasible(z3.BoolVal(True)):
+                            break
+                        raise
+                    if is_and and z3.is_false(t):
+                        return mk_bool(False)
+                    if not is_and and z3.is_true(t):
+                        return mk_bool(True)
+                    ts.append(t)
+                    guard = t if is_and else z3.Not(t)
+                    if not (z3.is_true(guard)):
+                        self.path.pc.append(guard)
+                        pushed.append(guard)
+            finally:
+                for g in reversed(pushed):
+                    idx = max(i for i, c in enumerate(self.path.pc) if c is g)
+                    del self.path.pc[idx]
             return mk_bool(z3.And(*ts) if is_and else z3.Or(*ts))
         last = None
         for i, vnode in enumerate(node.values):
